@@ -81,8 +81,58 @@ def real_serialize(mj):
         return None, type(e).__name__
 
 
+ARRAY_LEN_CAP = 4096   # declared array lengths above this are never decoded in this process unless
+#                        the payload really carries that many entries (a valid long array)
+
+
+def brief(x, limit=12, depth=0):
+    """bounded, JSON-able summary of a result (never renders an unbounded object)"""
+    if isinstance(x, dict):
+        return {str(k): brief(v, limit, depth + 1) for k, v in list(x.items())[:20]}
+    if isinstance(x, (list, tuple)):
+        if len(x) > limit:
+            return {"len": len(x), "head": [brief(v, limit, depth + 1) for v in x[:limit]]}
+        return [brief(v, limit, depth + 1) for v in x]
+    if isinstance(x, (int, float, bool)) or x is None:
+        return x
+    if isinstance(x, str):
+        return x[:200]
+    t = str(type(x).__name__)
+    try:
+        r = repr(x) if not hasattr(x, "__len__") or len(x) <= 64 else "<%s of len %d>" % (t, len(x))
+    except Exception:
+        r = "<%s>" % t
+    return r[:200]
+
+
+def declared_array_length(direction, raw):
+    """(declared LENGTH, number of entries the payload can hold) if `raw` would be read as a returned
+    array by the decoder of `direction`, else None.  Computed by the harness, not by the decoder."""
+    try:
+        if direction != "ret" or len(raw) < 1 or raw[0] != M.ReturnArrayMessage.TYPE.value:
+            return None
+        hl = M.ReturnArrayMessageHeader.len()
+        if len(raw) < 1 + hl:
+            return None
+        hdr = M.ReturnArrayMessageHeader.from_buffer_copy(bytes(raw[1:1 + hl]))
+        import ctypes as _ct
+        from netqasm.lang.encoding import OptionalInt as _OI
+        return int(hdr.length), (len(raw) - 1 - hl) // _ct.sizeof(_OI)
+    except Exception:
+        return None
+
+
+def must_isolate(direction, raw):
+    """a declared length that is large AND exceeds what the payload holds: a decoder that trusts it
+    allocates that much; such inputs are only decoded in a memory-limited subprocess"""
+    d = declared_array_length(direction, raw)
+    return d is not None and d[0] > ARRAY_LEN_CAP and d[0] > d[1]
+
+
 def real_deserialize(direction, raw):
-    """({'m': json} or {'err': class name})"""
+    """({'m': json} or {'err': class name}); refuses inputs that `must_isolate`"""
+    if must_isolate(direction, raw):
+        return {"refused": "declared array length exceeds the payload: decode in isolation"}
     f = M.deserialize_host_msg if direction == "host" else M.deserialize_return_msg
     try:
         _DECODE_ORDER.append(direction)
@@ -90,8 +140,59 @@ def real_deserialize(direction, raw):
         pass
     try:
         return {"m": msg_to_json(f(bytes(raw)))}
+    except MemoryError:
+        return {"err": "MemoryError"}
     except Exception as e:
         return {"err": type(e).__name__}
+
+
+_ISOLATED = r"""
+import sys, json, resource
+sys.path.insert(0, %r)
+from netqasm.backend import messages as M
+cases = json.loads(sys.stdin.read())
+# limit the address space to what the process uses now plus a fixed allowance
+vm = int(open("/proc/self/statm").read().split()[0]) * resource.getpagesize()
+resource.setrlimit(resource.RLIMIT_AS, (vm + %d, vm + %d))
+for direction, raw in cases:
+    f = M.deserialize_host_msg if direction == "host" else M.deserialize_return_msg
+    try:
+        m = f(bytes(raw))
+        if type(m).__name__ == "ReturnArrayMessage":
+            n = len(m.values)
+            out = {"m": {"k": "arr", "a": m.address, "len": n, "head": list(m.values[:8])}}
+        else:
+            out = {"m": {"k": type(m).__name__}}
+        del m
+    except MemoryError:
+        out = {"err": "MemoryError"}
+    except BaseException as e:
+        out = {"err": type(e).__name__}
+    print(json.dumps(out), flush=True)
+"""
+
+
+def isolated_decode(cases, mem_bytes=1 << 29, timeout=120):
+    """Decode (direction, bytes) pairs with the real code in a subprocess whose address space is limited;
+    returns one bounded summary per case ({'m': {..,'len':n,'head':[..]}} / {'err': cls} / {'died': ..})."""
+    import json as _json
+    import subprocess
+    import sys as _sys
+    if not cases:
+        return []
+    code = _ISOLATED % (common.REPO, mem_bytes, mem_bytes)
+    try:
+        p = subprocess.run([_sys.executable, "-c", code], input=_json.dumps([[d, list(r)] for d, r in cases]),
+                           capture_output=True, text=True, timeout=timeout)
+        lines = [ln for ln in p.stdout.split("\n") if ln.strip()]
+        outs = [_json.loads(ln) for ln in lines]
+    except subprocess.TimeoutExpired:
+        outs = []
+    except Exception as e:
+        outs = []
+    while len(outs) < len(cases):
+        outs.append({"died": "the isolated decoder did not answer (killed, timed out or out of memory)"})
+    return outs
 
 
 # ---- generators ------------------------------------------------------------------
